@@ -162,6 +162,15 @@ let run (v : variant) (ic : in_channel) (oc : out_channel) =
       let s = run_script v fuel fuel p in
       Printf.fprintf oc "BEGIN %s\n" id;
       List.iter (print_vline oc) (svisible s);
+      if Sys.getenv_opt "VERIF_DEBUG" <> None then
+        List.iter (fun e -> match e with
+            | EExec (n, TUser (h, args)) -> Printf.fprintf oc "Z exec t=%s h=%s args=%s\n" (zs n) (zs h)
+                                              (String.concat "," (List.map zs (List.filteri (fun i _ -> i < 4) args)))
+            | EExec (n, TQueue (q, _)) -> Printf.fprintf oc "Z exec t=%s queue %s\n" (zs n) (zs q)
+            | EExec (n, TResolve (r, _)) -> Printf.fprintf oc "Z exec t=%s resolve %s\n" (zs n) (zs r)
+            | EExec (n, TAcceptAbort2 h) -> Printf.fprintf oc "Z exec t=%s abort2 %s\n" (zs n) (zs h)
+            | EFire (n, i, _, _, _) -> Printf.fprintf oc "Z fire t=%s timer=%s\n" (zs n) (zs i)
+            | _ -> ()) (List.rev s.trace);
       (* diagnostics of the model's final state (lines starting with Z are not compared) *)
       List.iter (fun (id, (t : tcp)) ->
           if t.t_outgoing <> [] || t.t_send_h <> None || t.t_recv_h <> None || t.t_reorder <> [] then
